@@ -51,7 +51,7 @@ func runC04(c *Ctx, r *Report) {
 	c04HelloConn(c, r, "C04.R16")
 	c04HeaderAddrs(c, r, "C04.R17")
 	c09CloseOnce(c, r, "C04.R18") // no history of calls on a UDP connection ends the process: a handler (or a library given the connection) that closes it must not make the server's own Close close the channel a second time
-	c08QuicAddr(c, r, "C04.R9") // a panic of the library, reachable with two simultaneous datagrams
+	c08QuicAddr(c, r, "C04.R9")   // a panic of the library, reachable with two simultaneous datagrams
 	// R6
 	r.rule("C04.R6", "no method call on a nil upstream slot in any selection policy (path evaluation, pools of 0..3)", 6)
 	for _, o := range tmp.Obls {
@@ -556,6 +556,9 @@ func c04R3(c *Ctx, r *Report, rule string) {
 	valType := func(v ssa.Value) types.Type {
 		if mi, ok := v.(*ssa.MakeInterface); ok {
 			return mi.X.Type()
+		}
+		if ci, ok := v.(*ssa.ChangeInterface); ok {
+			return ci.X.Type() // a value of a narrower interface type stored as `any`: what it holds implements that interface
 		}
 		return v.Type()
 	}
